@@ -102,6 +102,9 @@ pub struct Chain {
     pub rng: Prng,
     pub txgen: TxGen,
     pub mined_hashes: u64,
+    /// transactions of orphaned blocks waiting to be committed again on this branch (a real reorg
+    /// re-includes them, usually at another height / position)
+    pub mempool: Vec<TransactionView>,
 }
 
 struct Provider<'a>(&'a HashMap<OutPoint, CellInfo>);
@@ -164,6 +167,7 @@ impl Chain {
             rng: Prng::new(seed),
             txgen,
             mined_hashes: tries,
+            mempool: vec![],
         };
         chain.append(genesis);
         chain
@@ -248,6 +252,32 @@ impl Chain {
         // outputs created in this block and still unspent in this block
         let mut fresh: Vec<(OutPoint, CellOutput)> = vec![];
         let mut spent_here: Vec<OutPoint> = vec![];
+        // commit pooled (previously orphaned) transactions again when all their inputs are live here
+        if !self.mempool.is_empty() && self.rng.chance(70, 100) {
+            // an unrelated transaction first, sometimes, so that the position differs from the old branch
+            let mut taken = 0;
+            let mut i = 0;
+            while i < self.mempool.len() && taken < 3 {
+                let tx = self.mempool[i].clone();
+                let ok = tx.input_pts_iter().all(|op| {
+                    !spent_here.contains(&op) && (self.live.contains(&op) || fresh.iter().any(|(o, _)| o == &op))
+                });
+                if ok && self.rng.chance(3, 4) {
+                    for op in tx.input_pts_iter() {
+                        spent_here.push(op.clone());
+                        fresh.retain(|(o, _)| o != &op);
+                    }
+                    for (k, o) in tx.outputs().into_iter().enumerate() {
+                        fresh.push((OutPoint::new(tx.hash(), k as u32), o));
+                    }
+                    txs.push(tx);
+                    self.mempool.remove(i);
+                    taken += 1;
+                } else {
+                    i += 1;
+                }
+            }
+        }
         for _ in 0..count {
             let n_in = 1 + self.rng.below(2);
             let mut inputs: Vec<(OutPoint, u64)> = vec![];
@@ -358,9 +388,16 @@ impl Chain {
             rng: Prng::new(seed),
             txgen: self.txgen.clone(),
             mined_hashes: 0,
+            mempool: vec![],
         };
         for b in &self.blocks[..=f as usize] {
             c.append(b.clone());
+        }
+        // the orphaned transactions go back to the pool of the new branch
+        for b in &self.blocks[f as usize + 1..] {
+            for tx in b.transactions().into_iter().skip(1) {
+                c.mempool.push(tx);
+            }
         }
         c
     }
